@@ -29,6 +29,8 @@ type Timer struct {
 	period   *Term // nil for one-shot
 	active   bool
 	desc     string
+	dormant  func() bool
+	wasDormant bool
 }
 
 type ChanV struct {
@@ -218,6 +220,13 @@ func (m *Machine) switchAway(cur *G) {
 			if m.advanceTime() {
 				continue
 			}
+			if m.horizon {
+				if cur.done {
+					m.finishExecution()
+					return
+				}
+				panic(execAbort{})
+			}
 			// nothing can run and no timer pending
 			blockedNonDaemon := false
 			desc := ""
@@ -362,6 +371,16 @@ func (m *Machine) advanceTime() bool {
 	var act []*Timer
 	for _, t := range m.timers {
 		if t.active {
+			if t.dormant != nil && t.dormant() {
+				// a periodic timer whose tick would be dropped (channel full): firing it changes nothing
+				t.wasDormant = true
+				continue
+			}
+			if t.wasDormant {
+				// re-armed once its channel has been drained
+				t.wasDormant = false
+				t.deadline = BvBin("bvadd", m.now, t.period)
+			}
 			act = append(act, t)
 		}
 	}
